@@ -77,7 +77,7 @@ static void child_main (void) {
 	char line[512], op[32], a2[64], a3[64], a4[64]; int h;
 	p_libsys_init (); p_libsys_shutdown (); p_libsys_init ();      /* the library is used after a shutdown / re-initialisation cycle */
 	for (;;) {
-		int n = 0, i = 0; char c; char name[160];
+		int n = 0, i = 0; char c; char name[640];
 		/* unbuffered line read (the gate reads single bytes from the same descriptor) */
 		while (i < (int) sizeof line - 1) { if (read (c_in, &c, 1) != 1) _exit (0); if (c == '\n') break; line[i++] = c; }
 		line[i] = 0; a2[0] = a3[0] = a4[0] = 0; h = 0;
